@@ -55,7 +55,7 @@ def main(argv):
                 descr[u.name] = u.describe()
             except Exception as e:
                 errs[name] = "%s: %s" % (type(e).__name__, str(e)[:300])
-        txt = sx2coq.emit_file(us)
+        txt = sx2coq.emit_file(us, stem)
         if errs:
             txt += "\n(* units that could not be extracted:\n%s\n*)\n" % "\n".join("%s: %s" % kv for kv in errs.items()).replace("*)", "* )")
         path = os.path.join(out, stem + ".v")
